@@ -805,7 +805,7 @@ struct static_array<T, ::boost::multi::dimensionality_type{0}, Alloc>  // NOLINT
 	using typename ref::difference_type;
 	using typename ref::size_type;
 	using typename ref::value_type;
-	constexpr explicit static_array(allocator_type const& alloc) : array_alloc{alloc} {}
+	explicit static_array(allocator_type const& alloc) : static_array(typename static_array::extensions_type{}, alloc) {}  // a rank-0 array always holds one element: static_array() with an allocator
 
 	constexpr static_array(decay_type&& other, allocator_type const& alloc)  // 6b
 	: array_alloc{alloc}, ref{other.base_, other.extensions()} {
